@@ -36,21 +36,73 @@ SAN_ENV = {
 
 
 class CpuAlloc:
+    """Hands out disjoint CPU sets to cases.  CPUs are also claimed across processes
+    (one flock()ed file per CPU under /var/tmp/vp-cpulocks, created on demand) so that two
+    checks running at the same time do not pile their pinned threads onto the same cores."""
+    LOCKDIR = Path(os.environ.get('VERIF_CPULOCK_DIR', '/var/tmp/vp-cpulocks'))
+
     def __init__(self):
         self.free = sorted(os.sched_getaffinity(0))
         self.total = len(self.free)
         self.cv = threading.Condition()
+        self.locks = {}
+        try:
+            self.LOCKDIR.mkdir(parents=True, exist_ok=True)
+            self.xproc = True
+        except OSError:
+            self.xproc = False
+
+    def _try_lock(self, cpu):
+        if not self.xproc:
+            return True
+        import fcntl
+        try:
+            f = open(self.LOCKDIR / ('cpu%d' % cpu), 'w')
+        except OSError:
+            return True
+        try:
+            fcntl.flock(f, fcntl.LOCK_EX | fcntl.LOCK_NB)
+        except OSError:
+            f.close()
+            return False
+        self.locks[cpu] = f
+        return True
+
+    def _unlock(self, cpu):
+        f = self.locks.pop(cpu, None)
+        if f is not None:
+            f.close()
 
     def get(self, n):
         n = min(n, self.total)
+        t0 = time.time()
         with self.cv:
-            while len(self.free) < n:
-                self.cv.wait()
-            got, self.free = self.free[:n], self.free[n:]
-            return got
+            while True:
+                got = []
+                if len(self.free) >= n:
+                    for c in list(self.free):
+                        if self._try_lock(c):
+                            got.append(c)
+                            if len(got) == n:
+                                break
+                    # after 15 min of waiting for other processes, share CPUs rather than starve
+                    if len(got) < n and time.time() - t0 > 900:
+                        for c in self.free:
+                            if c not in got:
+                                got.append(c)
+                                if len(got) == n:
+                                    break
+                    if len(got) == n:
+                        self.free = [c for c in self.free if c not in got]
+                        return got
+                    for c in got:
+                        self._unlock(c)
+                self.cv.wait(timeout=0.25)
 
     def put(self, cpus):
         with self.cv:
+            for c in cpus:
+                self._unlock(c)
             self.free = sorted(self.free + cpus)
             self.cv.notify_all()
 
